@@ -1,11 +1,49 @@
+import CoupeModel.Driver.C01
+import CoupeModel.Driver.C02
+import CoupeModel.Driver.C03
+import CoupeModel.Driver.C04
+import CoupeModel.Driver.C05
+import CoupeModel.Driver.C06
+import CoupeModel.Driver.C07
+import CoupeModel.Driver.C08
+import CoupeModel.Driver.C09
+import CoupeModel.Driver.C10
+import CoupeModel.Driver.C11
+import CoupeModel.Driver.C12
 import CoupeModel.Driver.C13
+import CoupeModel.Driver.C14
+import CoupeModel.Driver.C15
+import CoupeModel.Driver.C16
+import CoupeModel.Driver.C17
+import CoupeModel.Driver.C18
+import CoupeModel.Driver.C19
+import CoupeModel.Driver.C20
 
 /-! Model driver: one operation per input line (`<property> <op> <args…>`),
 one canonical output line per operation. -/
 
 def dispatch (line : String) : String :=
   match (line.trimAscii.toString.splitOn " ").filter (· ≠ "") with
+  | "C01" :: rest => Coupe.Driver.C01.handle rest
+  | "C02" :: rest => Coupe.Driver.C02.handle rest
+  | "C03" :: rest => Coupe.Driver.C03.handle rest
+  | "C04" :: rest => Coupe.Driver.C04.handle rest
+  | "C05" :: rest => Coupe.Driver.C05.handle rest
+  | "C06" :: rest => Coupe.Driver.C06.handle rest
+  | "C07" :: rest => Coupe.Driver.C07.handle rest
+  | "C08" :: rest => Coupe.Driver.C08.handle rest
+  | "C09" :: rest => Coupe.Driver.C09.handle rest
+  | "C10" :: rest => Coupe.Driver.C10.handle rest
+  | "C11" :: rest => Coupe.Driver.C11.handle rest
+  | "C12" :: rest => Coupe.Driver.C12.handle rest
   | "C13" :: rest => Coupe.Driver.C13.handle rest
+  | "C14" :: rest => Coupe.Driver.C14.handle rest
+  | "C15" :: rest => Coupe.Driver.C15.handle rest
+  | "C16" :: rest => Coupe.Driver.C16.handle rest
+  | "C17" :: rest => Coupe.Driver.C17.handle rest
+  | "C18" :: rest => Coupe.Driver.C18.handle rest
+  | "C19" :: rest => Coupe.Driver.C19.handle rest
+  | "C20" :: rest => Coupe.Driver.C20.handle rest
   | _ => "bad-op"
 
 partial def loop (h : IO.FS.Stream) (out : IO.FS.Stream) : IO Unit := do
